@@ -1,5 +1,6 @@
 import json
 from copy import deepcopy
+import gfapy
 
 class Cloning:
 
@@ -25,6 +26,9 @@ class Cloning:
         data_cpy[k] = json.loads(json.dumps(v))
       elif isinstance(v, list) or isinstance(v, str):
         data_cpy[k] = deepcopy(v)
+      elif isinstance(v, gfapy.OrientedLine):
+        # oriented identifier which is not a reference (e.g. external of F)
+        data_cpy[k] = gfapy.OrientedLine(v.name, v.orient)
       else:
         data_cpy[k] = v
     cpy = self.__class__(data_cpy, vlevel = self.vlevel,
